@@ -231,8 +231,8 @@ def c02(tier):
              'kinds': K9, 'sample': 0.25 if q else 0.5},
             {'kind': 'drive', 'profile': 'history', 'traces': 160 if q else 3000, 'steps': 50},
             {'kind': 'drive', 'profile': 'burst', 'traces': 100 if q else 2000, 'steps': 0},
-            {'kind': 'replay', 'model': M('cow_S6', 'cow', 'S6', depth=8, sim={'num': 1500 if q else 30000, 'depth': 10, 'seed': 5}),
-             'kinds': ['chunky', 'keyspread', 'chunky', 'threshold'], 'sample': 0.1 if q else 0.4, 'extra': ['-keeprcp']},
+            {'kind': 'replay', 'model': M('cow_S6', 'cow', 'S6', depth=8, sim={'num': 1500 if q else 10000, 'depth': 10, 'seed': 5}),
+             'kinds': ['chunky', 'keyspread', 'chunky', 'threshold'], 'sample': 0.1 if q else 0.3, 'extra': ['-keeprcp']},
         ],
     }
 
@@ -271,10 +271,10 @@ def c11(tier):
         'assumptions': ASSUME_SET,
         'phases': [
             {'kind': 'replay', 'model': M('agg_S4', 'agg', 'S4', maxlist=3), 'kinds': ['tiny', 'array', 'bitmap', 'run', 'chunky', 'top', 'mixed', 'keyspread', 'keygaps'],
-             'sample': 0.04 if q else 0.8},
+             'sample': 0.04 if q else 0.3},
             {'kind': 'drive', 'profile': 'aggregate', 'traces': 160 if q else 3000, 'steps': 40},
-            {'kind': 'drive', 'profile': 'aggsparse', 'traces': 300 if q else 6000, 'steps': 0},
-            {'kind': 'drive', 'profile': 'aggkernel', 'traces': 400 if q else 8000, 'steps': 0},
+            {'kind': 'drive', 'profile': 'aggsparse', 'traces': 300 if q else 2500, 'steps': 0},
+            {'kind': 'drive', 'profile': 'aggkernel', 'traces': 400 if q else 4000, 'steps': 0},
             {'kind': 'replay', 'model': par_models()[0], 'kinds': ['chunks'], 'sample': 1.0, 'shards': 4},
         ],
     }
@@ -287,11 +287,11 @@ def c16(tier):
         'assumptions': ASSUME_SET,
         'phases': [
             {'kind': 'replay', 'model': M('step_S4', 'step', 'S4'), 'kinds': ['periodic', 'periodic', 'periodic', 'tiny', 'array', 'bitmap', 'run', 'top'],
-             'sample': 0.06 if q else 1.0, 'extra': ['-opfilter', 'trans']},
+             'sample': 0.06 if q else 0.6, 'extra': ['-opfilter', 'trans']},
             {'kind': 'replay', 'model': M('step_S8', 'step', 'S8'), 'kinds': ['periodic', 'mixed', 'threshold', 'chunky'],
-             'sample': 0.01 if q else 0.3, 'extra': ['-opfilter', 'trans']},
+             'sample': 0.01 if q else 0.15, 'extra': ['-opfilter', 'trans']},
             {'kind': 'drive', 'profile': 'transform', 'traces': 120 if q else 2500, 'steps': 40},
-            {'kind': 'drive', 'profile': 'offsetkernel', 'traces': 600 if q else 12000, 'steps': 0},
+            {'kind': 'drive', 'profile': 'offsetkernel', 'traces': 600 if q else 8000, 'steps': 0},
         ],
     }
 
@@ -302,14 +302,14 @@ def c07(tier):
         'rule': 'every producer (Clone, static/in-place algebra, Flip, AddOffset, aggregates) followed by single-chunk writes on every participant; content of ALL slots compared with the specification after every call (OnlyTargetChanges); structural sharing alarms are turned into behavioural witnesses by a write probe',
         'assumptions': ASSUME_SET,
         'phases': [
-            {'kind': 'replay', 'model': M('cow_S6', 'cow', 'S6', depth=8, sim={'num': 1500 if q else 30000, 'depth': 10, 'seed': 5}),
-             'kinds': ['chunky', 'keyspread', 'chunky', 'threshold'], 'sample': 0.25 if q else 0.5, 'extra': ['-keeprcp']},
-            {'kind': 'drive', 'profile': 'sharing', 'traces': 400 if q else 6000, 'steps': 60, 'extra': ['-minkeys', '3', '-cow']},
-            {'kind': 'drive', 'profile': 'sharing', 'traces': 160 if q else 2000, 'steps': 60},
-            {'kind': 'drive', 'profile': 'aggkernel', 'traces': 400 if q else 8000, 'steps': 0},
-            {'kind': 'drive', 'profile': 'aggsparse', 'traces': 160 if q else 3000, 'steps': 0},
-            {'kind': 'drive', 'profile': 'kernel', 'traces': 300 if q else 6000, 'steps': 0},
-            {'kind': 'drive', 'profile': 'cowkeys', 'traces': 300 if q else 6000, 'steps': 0},
+            {'kind': 'replay', 'model': M('cow_S6', 'cow', 'S6', depth=8, sim={'num': 1500 if q else 10000, 'depth': 10, 'seed': 5}),
+             'kinds': ['chunky', 'keyspread', 'chunky', 'threshold'], 'sample': 0.25 if q else 0.3, 'extra': ['-keeprcp']},
+            {'kind': 'drive', 'profile': 'sharing', 'traces': 400 if q else 2500, 'steps': 60, 'extra': ['-minkeys', '3', '-cow']},
+            {'kind': 'drive', 'profile': 'sharing', 'traces': 160 if q else 1000, 'steps': 60},
+            {'kind': 'drive', 'profile': 'aggkernel', 'traces': 400 if q else 3000, 'steps': 0},
+            {'kind': 'drive', 'profile': 'aggsparse', 'traces': 160 if q else 1200, 'steps': 0},
+            {'kind': 'drive', 'profile': 'kernel', 'traces': 300 if q else 3000, 'steps': 0},
+            {'kind': 'drive', 'profile': 'cowkeys', 'traces': 300 if q else 3000, 'steps': 0},
         ],
     }
 
@@ -484,7 +484,7 @@ def c12(tier):
             {'kind': 'replay', 'model': ms[0], 'kinds': ['chunks'], 'sample': 1.0, 'shards': 4},
             {'kind': 'drive', 'profile': 'parallel', 'traces': 64 if q else 800, 'steps': 40, 'shards': 8, 'gomaxprocs': [1, 2, 4, 16]},
             {'kind': 'drive', 'profile': 'parallel', 'traces': 48 if q else 600, 'steps': 30, 'shards': 8, 'gomaxprocs': [1, 2, 4, 16], 'extra': ['-spread', '300']},
-            {'kind': 'drive', 'profile': 'aggsparse', 'traces': 96 if q else 2000, 'steps': 0, 'shards': 8, 'gomaxprocs': [1, 2, 4, 16]},
+            {'kind': 'drive', 'profile': 'aggsparse', 'traces': 96 if q else 1000, 'steps': 0, 'shards': 8, 'gomaxprocs': [1, 2, 4, 16]},
             {'kind': 'drive', 'profile': 'aggsparse', 'traces': 64 if q else 1000, 'steps': 0, 'shards': 4, 'gomaxprocs': [2, 16], 'extra': ['-bits', '64']},
             {'kind': 'drive', 'cmd': 'bsi', 'profile': 'update', 'traces': 96 if q else 1500, 'steps': 30, 'shards': 6, 'gomaxprocs': [1, 2, 4, 16],
              'trace_module': 'TraceBSI.tla', 'trace_cfg': 'TraceBSI.cfg'},
@@ -492,8 +492,8 @@ def c12(tier):
              'trace_module': 'TraceBSI.tla', 'trace_cfg': 'TraceBSI.cfg'},
             {'kind': 'drive', 'cmd': 'bsi', 'profile': 'bulk', 'traces': 8 if q else 100, 'steps': 20, 'shards': 8, 'gomaxprocs': [2, 4, 16],
              'trace_module': 'TraceBSI.tla', 'trace_cfg': 'TraceBSI.cfg'},
-            {'kind': 'gate', 'configs': sorted(GATE_CONFIGS), 'runs': 12 if q else 150, 'gomaxprocs': [1, 2, 4, 16]},
-            {'kind': 'walk', 'configs': WALK_QUICK if q else WALK_THOROUGH, 'walks': 1500 if q else 40000, 'budget': 120 if q else 1500, 'gomaxprocs': [4, 16, 2, 1]},
+            {'kind': 'gate', 'configs': sorted(GATE_CONFIGS), 'runs': 12 if q else 100, 'gomaxprocs': [1, 2, 4, 16]},
+            {'kind': 'walk', 'configs': WALK_QUICK if q else WALK_THOROUGH, 'walks': 1500 if q else 40000, 'budget': 120 if q else 900, 'gomaxprocs': [4, 16, 2, 1]},
         ],
     }
 
@@ -505,20 +505,20 @@ def c17(tier):
         'rule': 'the RoaringSet specification instantiated at 2^64: TLC models (pairs of subsets x binary algebra; every mutation/query call from every subset-state; simulated histories; aggregates) replayed on roaring64 under concretisations placed inside a bucket, straddling a 2^32 boundary, in bucket 0 and in bucket 0xFFFFFFFF; plus randomized real-scale 64-bit traces',
         'assumptions': ASSUME_SET + ['ranges are kept below 2^27 integers wide (a 64-bit range call materialises every chunk it covers)'],
         'phases': [
-            {'kind': 'replay', 'model': M('pairs_S6', 'pairs', 'S6'), 'kinds': ['tiny', 'array', 'threshold', 'bitmap', 'run', 'chunky', 'top', 'mixed', 'keygaps', 'keygaps'], 'sample': 0.002 if q else 0.04, 'extra': B},
-            {'kind': 'replay', 'model': M('step_S7', 'step', 'S7'), 'kinds': ['tiny', 'array', 'threshold', 'bitmap', 'run', 'chunky', 'top', 'mixed', 'keygaps', 'keygaps'], 'sample': 0.015 if q else 0.4, 'extra': B},
+            {'kind': 'replay', 'model': M('pairs_S6', 'pairs', 'S6'), 'kinds': ['tiny', 'array', 'threshold', 'bitmap', 'run', 'chunky', 'top', 'mixed', 'keygaps', 'keygaps'], 'sample': 0.002 if q else 0.02, 'extra': B},
+            {'kind': 'replay', 'model': M('step_S7', 'step', 'S7'), 'kinds': ['tiny', 'array', 'threshold', 'bitmap', 'run', 'chunky', 'top', 'mixed', 'keygaps', 'keygaps'], 'sample': 0.015 if q else 0.15, 'extra': B},
             {'kind': 'replay', 'model': M('hist_S7', 'hist', 'S7', depth=12, sim={'num': 300 if q else 6000, 'depth': 13, 'seed': 7}),
-             'kinds': ['tiny', 'array', 'threshold', 'run', 'chunky', 'top', 'mixed', 'keygaps', 'keygaps'], 'sample': 0.15 if q else 0.5, 'extra': B},
-            {'kind': 'replay', 'model': M('agg_S4', 'agg', 'S4', maxlist=3), 'kinds': ['tiny', 'array', 'run', 'chunky', 'top', 'mixed', 'keygaps', 'keygaps'], 'sample': 0.01 if q else 0.3, 'extra': B},
-            {'kind': 'replay', 'model': M('keys_K5', 'keys', 'K5'), 'kinds': ['keygaps', 'keygaps', 'chunky'], 'sample': 0.04 if q else 0.8, 'extra': B},
-            {'kind': 'replay', 'model': M('cow_S6', 'cow', 'S6', depth=8, sim={'num': 1500 if q else 30000, 'depth': 10, 'seed': 5}),
+             'kinds': ['tiny', 'array', 'threshold', 'run', 'chunky', 'top', 'mixed', 'keygaps', 'keygaps'], 'sample': 0.15 if q else 0.3, 'extra': B},
+            {'kind': 'replay', 'model': M('agg_S4', 'agg', 'S4', maxlist=3), 'kinds': ['tiny', 'array', 'run', 'chunky', 'top', 'mixed', 'keygaps', 'keygaps'], 'sample': 0.01 if q else 0.1, 'extra': B},
+            {'kind': 'replay', 'model': M('keys_K5', 'keys', 'K5'), 'kinds': ['keygaps', 'keygaps', 'chunky'], 'sample': 0.04 if q else 0.3, 'extra': B},
+            {'kind': 'replay', 'model': M('cow_S6', 'cow', 'S6', depth=8, sim={'num': 1500 if q else 10000, 'depth': 10, 'seed': 5}),
              'kinds': ['keygaps', 'chunky', 'tiny'], 'sample': 0.1 if q else 0.4, 'extra': B + ['-keeprcp']},
-            {'kind': 'drive', 'profile': 'all64', 'traces': 200 if q else 4000, 'steps': 50, 'extra': B},
-            {'kind': 'drive', 'profile': 'aggsparse', 'traces': 240 if q else 5000, 'steps': 0, 'extra': B},
-            {'kind': 'drive', 'profile': 'cowkeys', 'traces': 300 if q else 6000, 'steps': 0, 'extra': B},
+            {'kind': 'drive', 'profile': 'all64', 'traces': 200 if q else 2500, 'steps': 50, 'extra': B},
+            {'kind': 'drive', 'profile': 'aggsparse', 'traces': 240 if q else 2000, 'steps': 0, 'extra': B},
+            {'kind': 'drive', 'profile': 'cowkeys', 'traces': 300 if q else 3000, 'steps': 0, 'extra': B},
             {'kind': 'drive', 'profile': 'iter64', 'traces': 80 if q else 1500, 'steps': 50, 'extra': B},
             {'kind': 'replay', 'model': M('iter_S7', 'iter', 'S7', depth=6, sim={'num': 400 if q else 8000, 'depth': 8, 'seed': 11}),
-             'kinds': ['tiny', 'array', 'run', 'chunky', 'top', 'mixed', 'keygaps', 'keygaps'], 'sample': 0.05 if q else 0.3, 'extra': B},
+             'kinds': ['tiny', 'array', 'run', 'chunky', 'top', 'mixed', 'keygaps', 'keygaps'], 'sample': 0.05 if q else 0.2, 'extra': B},
         ],
     }
 
@@ -542,11 +542,11 @@ def c04(tier):
         'rule': 'RoaringIter.tla: iterators as state machines over atoms (rem / one), driven in groups; TLC simulates interleavings of ItNew/ItTake/ItPeek/ItAdvance (all kinds, all unset windows, all advance targets incl. behind the cursor) from every subset-state and enumerates every one-shot consumer x stop cell; replayed under concretisations (runs ending at 65535, chunks at consecutive keys, windows ending at 2^32) and validated step by step by TLC; plus random traces',
         'assumptions': ASSUME_SET + ['enumerations above 2^22 values are not driven'],
         'phases': [
-            {'kind': 'replay', 'model': M('iter_S7', 'iter', 'S7', depth=6, sim={'num': 400 if q else 8000, 'depth': 8, 'seed': 11}),
-             'kinds': K9, 'sample': 0.12 if q else 0.5},
+            {'kind': 'replay', 'model': M('iter_S7', 'iter', 'S7', depth=6, sim={'num': 400 if q else 4000, 'depth': 8, 'seed': 11}),
+             'kinds': K9, 'sample': 0.12 if q else 0.4},
             {'kind': 'replay', 'model': M('oneshot_S7', 'oneshot', 'S7'), 'kinds': K9,
-             'sample': 0.03 if q else 0.6},
-            {'kind': 'drive', 'profile': 'iter', 'traces': 200 if q else 4000, 'steps': 60},
+             'sample': 0.03 if q else 0.3},
+            {'kind': 'drive', 'profile': 'iter', 'traces': 200 if q else 2500, 'steps': 60},
         ],
     }
 
